@@ -86,9 +86,12 @@ def run(tier, runner):
     r_as.require(1, 'iterator classes with operator* and operator->')
     r_er = round5.erase_ret(progs)
     r_er.require(2, 'inline-state returns of the erase overloads')
+    from ..rules import round6
+    r_pc = round6.postfix_copy(progs)
+    r_pc.require(2, 'postfix ++ / -- of the SmallSet iterator (forward and reverse)')
     return {
-        'results': [r_alt, r_sib, r_var, r_is, r_np, r_as, r_er],
-        'explanation': 'ERASE-RET: in the inline state erase returns what the erase of the inline vector returned.  ARROW-STAR: operator-> of the SmallSet iterator (forward and reverse instantiations) takes the address of what operator* returns.  NODE-POS: insert(node) stores the position returned by the insertion it performed on every path, also when the node was refused.  ITER-ALT: every iterator handed to the caller after a call that can remove the last element of the large-state set is built only after '
+        'results': [r_alt, r_sib, r_var, r_is, r_np, r_as, r_er, r_pc],
+        'explanation': 'POSTFIX-COPY: the postfix ++ / -- of the iterator return a by-value copy taken before the step.  ERASE-RET: in the inline state erase returns what the erase of the inline vector returned.  ARROW-STAR: operator-> of the SmallSet iterator (forward and reverse instantiations) takes the address of what operator* returns.  NODE-POS: insert(node) stores the position returned by the insertion it performed on every path, also when the node was refused.  ITER-ALT: every iterator handed to the caller after a call that can remove the last element of the large-state set is built only after '
                        're-testing which container is active (so erase returns end() of the active container); ALT-SIB: begin/end/rbegin/rend/find/size '
                        'select their alternative with the same predicate and consult only the active container; ITER-STATE: the iterator returned by insert / emplace / insert_small is built from the container that holds the elements at the return (the set once the call has grown, the inline vector otherwise); VARIANT-ALT: the variant iterator fixes '
                        'its alternative only in toSetIt/toVecIt, which SmallSet calls only in the matching state.  Both backings, N in {1,2,4}.',
